@@ -236,6 +236,131 @@ pub fn check_case(c: &Case, rep: &mut Report) {
     }
 }
 
+/// the client's side of an in-memory TLS session: what the client writes is fed to the reference TLS server, whose
+/// plaintext output is what "reached the peer"
+struct TlsSink(std::sync::Arc<std::sync::Mutex<(crate::tls::TlsServer, std::collections::VecDeque<u8>, Vec<u8>)>>);
+
+impl std::fmt::Debug for TlsSink {
+    fn fmt(&self, f: &mut std::fmt::Formatter) -> std::fmt::Result {
+        write!(f, "TlsSink")
+    }
+}
+
+impl std::io::Read for TlsSink {
+    fn read(&mut self, buf: &mut [u8]) -> std::io::Result<usize> {
+        let mut g = self.0.lock().unwrap();
+        let n = buf.len().min(g.1.len());
+        for b in buf.iter_mut().take(n) {
+            *b = g.1.pop_front().unwrap();
+        }
+        Ok(n)
+    }
+}
+
+impl std::io::Write for TlsSink {
+    fn write(&mut self, buf: &[u8]) -> std::io::Result<usize> {
+        let mut g = self.0.lock().unwrap();
+        let (plain, reply) = g.0.feed(buf);
+        g.2.extend_from_slice(&plain);
+        g.1.extend(reply.iter());
+        Ok(buf.len())
+    }
+    fn flush(&mut self) -> std::io::Result<()> {
+        Ok(())
+    }
+}
+
+fn tls_len(k: u64, r: &mut Rng) -> usize {
+    // sizes either side of one, two, three and four TLS records (16384 bytes of plaintext each) once the frame header is
+    // counted, the largest frame, ordinary sizes
+    match k % 8 {
+        0 => 16384 - 8 + r.below(16) as usize,
+        1 => 2 * 16384 - 8 + r.below(16) as usize,
+        2 => 3 * 16384 - 8 + r.below(16) as usize,
+        3 => 65531 - r.below(12) as usize,
+        4 => r.range(16385, 65531) as usize,
+        5 => r.range(0, 300) as usize,
+        6 => 4 * 16384 - 16 + r.below(11) as usize,
+        _ => r.range(0, 20000) as usize,
+    }
+}
+
+/// class 6: the same frames through the TLS arm of the link (what every real session uses after the negotiation):
+/// the plaintext the TLS peer obtains must be exactly the frames written, whatever their size relative to a TLS record
+pub fn check_tls_case(idx: u64, seed: u64, rep: &mut Report) {
+    rep.eval();
+    let mut r = Rng::derive(seed, "C14-tls", 6, idx);
+    let level = if idx % 2 == 0 { "tpkt" } else { "link" };
+    let tls12 = r.chance(1, 2);
+    let shared = std::sync::Arc::new(std::sync::Mutex::new((crate::tls::TlsServer::new(&crate::tls::identity(0), tls12), std::collections::VecDeque::new(), Vec::new())));
+    let sink = TlsSink(shared.clone());
+    let n = r.range(1, 4) as usize;
+    let lens: Vec<usize> = (0..n).map(|i| tls_len(idx / 2 + i as u64 * 3, &mut r)).collect();
+    let replay = json!({"class": "over-tls", "idx": idx, "seed": seed, "level": level, "lens": lens, "tls12_only": tls12});
+    let built = mon::guarded(move || -> Result<Client2, String> {
+        let link = Link::new(Stream::Raw(sink)).start_ssl(false).map_err(|e| format!("{:?}", e))?;
+        if level == "tpkt" {
+            Ok(Client2::Tpkt(tpkt::Client::new(link)))
+        } else {
+            Ok(Client2::Link(link))
+        }
+    });
+    let mut client = match built {
+        Ok(Ok(c)) => c,
+        Ok(Err(e)) => {
+            rep.selfcheck_fail(format!("TLS session with the reference server could not be set up: {}", e));
+            return;
+        }
+        Err(p) => {
+            rep.selfcheck_fail(format!("panic while setting up the TLS session: {}", p.msg));
+            return;
+        }
+    };
+    shared.lock().unwrap().2.clear();
+    for (i, n) in lens.iter().enumerate() {
+        let p = payload(seed ^ idx, i, *n);
+        let exp = expected_frame(if level == "tpkt" { "tpkt" } else { "link" }, &p).unwrap_or_default();
+        let pc = p.clone();
+        let cl = &mut client;
+        let res = mon::guarded(move || match cl {
+            Client2::Link(l) => l.write(&pc).map_err(|e| format!("{:?}", e)),
+            Client2::Tpkt(t) => t.write(pc).map_err(|e| format!("{:?}", e)),
+        });
+        let got = std::mem::take(&mut shared.lock().unwrap().2);
+        let what = format!("message {} of {:?} (payload {} bytes) over TLS{}", i, lens, n, if tls12 { " 1.2" } else { "" });
+        match res {
+            Err(pn) => {
+                rep.violation(format!("C14/tls-{}/{}", level, pn.sig()), format!("{}: {} at {}:{}", what, pn.msg, pn.file, pn.line), replay.clone());
+                break;
+            }
+            Ok(Ok(())) => {
+                if got == exp {
+                    rep.hist("tls-ok-exact");
+                    rep.hist(&format!("tls-records-{}", (exp.len() + 16383) / 16384));
+                } else if got.len() < exp.len() && got[..] == exp[..got.len()] {
+                    rep.violation(format!("C14/tls-{}/incomplete-delivery", level), format!("{}: write returned Ok but the TLS peer obtained only {} of {} bytes", what, got.len(), exp.len()), replay.clone());
+                    break;
+                } else {
+                    let d = got.iter().zip(exp.iter()).position(|(a, b)| a != b);
+                    rep.violation(format!("C14/tls-{}/wrong-bytes", level), format!("{}: the TLS peer obtained {} bytes, expected {}; first difference at {:?}", what, got.len(), exp.len(), d), replay.clone());
+                    break;
+                }
+            }
+            Ok(Err(e)) => {
+                rep.violation(format!("C14/tls-{}/spurious-error", level), format!("{}: no fault injected but write returned Err({})", what, e), replay.clone());
+                break;
+            }
+        }
+    }
+    rep.nontrivial(fnv(format!("tls{:?}{}{}", lens, level, tls12).as_bytes()));
+    rep.set("classes", "over-tls".to_string());
+}
+
+enum Client2 {
+    Link(Link<TlsSink>),
+    Tpkt(tpkt::Client<TlsSink>),
+}
+
 fn caps_for(r: &mut Rng, k: u64) -> Vec<usize> {
     match k % 8 {
         0 => vec![usize::MAX],
@@ -391,6 +516,7 @@ pub fn run(cfg: &Cfg) -> Report {
         (3, cfg.n(400_000, 50_000_000)),
         (4, cfg.n(60_000, 3_000_000)),
         (5, cfg.n(1_200, 100_000)),
+        (6, cfg.n(240, 40_000)),
     ];
     for (class, n) in plan {
         if !cfg.wants(class) {
@@ -398,6 +524,10 @@ pub fn run(cfg: &Cfg) -> Report {
         }
         let rep = par_run(cfg, n, 64, |idx, rep| {
             mon::begin_case(14, class, idx, seed);
+            if class == 6 {
+                check_tls_case(idx, seed, rep);
+                return;
+            }
             let c = make_case(class, idx, seed, quick);
             check_case(&c, rep);
         });
@@ -412,8 +542,16 @@ pub fn replay(cfg: &Cfg, v: &Value) -> Report {
     mon::set_quiet(false);
     if let Some(a) = v.get("death_case") {
         let a: Vec<u64> = a.as_array().unwrap().iter().map(|x| x.as_u64().unwrap()).collect();
+        if a[1] == 6 {
+            check_tls_case(a[2], a[3], &mut rep);
+            return rep;
+        }
         let c = make_case(a[1], a[2], a[3], cfg.quick());
         check_case(&c, &mut rep);
+        return rep;
+    }
+    if v["class"] == "over-tls" {
+        check_tls_case(v["idx"].as_u64().unwrap_or(0), v["seed"].as_u64().unwrap_or(1), &mut rep);
         return rep;
     }
     let level: &'static str = match v["level"].as_str().unwrap_or("") {
